@@ -55,7 +55,7 @@ fn default_chans() -> Vec<Chan> {
     ]
 }
 
-const SIZES: &[usize] = &[0, 1, 2, 17, 63, 64, 500, 1185, 1189, 1190, 1191, 1195, 1199, 1200, 1201, 1202, 2399, 2400, 2401, 3600, 3601, 4799, 6000];
+const SIZES: &[usize] = &[0, 1, 2, 17, 63, 64, 500, 1185, 1189, 1190, 1191, 1195, 1199, 1200, 1201, 1202, 1280, 1288, 1291, 1293, 1295, 1297, 1299, 1300, 1301, 2399, 2400, 2401, 3600, 3601, 4799, 6000];
 
 fn rand_msg(rng: &mut Rng, cap: usize) -> Vec<u8> {
     let n = gen_size(rng).min(cap);
